@@ -6,14 +6,15 @@ cd "$(dirname "$0")"
 export GOFLAGS=-mod=mod GOPROXY=off GOSUMDB=off GOTOOLCHAIN=local
 mkdir -p bin evidence replay .work
 (cd lean && lake build 2>&1 | tail -5)
-./harness/mkmod.sh
+./harness/mkmod.sh $PWD/.work/mod-setup/harness.mod
+MOD=-modfile=$PWD/.work/mod-setup/harness.mod
 cd harness
 for d in c[0-9][0-9]; do
   [ -f "$d/main.go" ] || continue
   if grep -q "\"race\": true" ../props/$(echo $d | tr c C).json 2>/dev/null; then
-    go build -tags verif -race -o ../bin/$d-race ./$d || echo "setup: harness $d failed to build"
+    go build $MOD -tags verif -race -o ../bin/$d-race ./$d || echo "setup: harness $d failed to build"
   else
-    go build -tags verif -o ../bin/$d ./$d || echo "setup: harness $d failed to build"
+    go build $MOD -tags verif -o ../bin/$d ./$d || echo "setup: harness $d failed to build"
   fi
 done
 echo setup done
